@@ -28,6 +28,48 @@ CHECKS = {
  "C29": ("pv-net2", "exploration", "proptest sequences of arbitrary interface events and commands; no-panic oracle with root-cause panic signatures",
    "Sequences of up to 300 arbitrary interface events over 4 known peers and one unknown peer (duplicate Connected, Sent of never-emitted messages, Recv of any message of any protocol in any state, Error, Disconnected, Idle) interleaved with every external command are fed to InitiatorBehavior (default and tight promotion limits) and ResponderBehavior; afterwards a housekeeping pass and a full drain must still work. Any panic is caught and reported with a signature naming file, function and message.",
    "Default configurations only (plus one tight promotion configuration); message payloads come from a recipe pool, not arbitrary bytes."),
+ "C10": ("pv-crypto", "exploration", "proptest against an independent RFC 7693 Blake2b; exhaustive over tag bytes; published nonce vectors",
+   "Incremental, one-shot, tagged and CBOR hashing at 160/224/256 bits are compared with the harness' own Blake2b over ~1.3 M generated inputs per quick run (random splits incl. empty chunks and 128-byte block edges, all 256 tag bytes exhaustively, recursive CBOR values); Hash<20/28/32> hex, CBOR and JSON round-trips and the rejection of wrong-length, odd-length and non-hex inputs on 500 k cases; epoch and rolling nonces against the Praos compositions on 500 k random inputs and 4 published mainnet values.",
+   "Sampled inputs (exhaustive only over the tag byte); the Blake2b reference and nonce compositions are the harness' own, anchored by the RFC vector, python hashlib and mainnet nonces."),
+ "C11": ("pv-crypto", "exploration", "differential proptest against ed25519-dalek (incl. hazmat expanded keys); all 32 clamping-bit combinations",
+   "For 40 k random standard and extended keys per quick run public keys and signatures are byte-identical to an independent RFC 8032 implementation, every signature verifies, and for 13 tamperings per key (single-bit flips of message, key, R, S, and S+L) pallas' verdict equals the reference's. Extended-key acceptance is checked for all 32 combinations of the five structural bits over 60 k random keys and must be Ok exactly for the required pattern.",
+   "Random keys/messages; adversarial encodings (small-order points, non-canonical y) are not reached by single-bit tampering."),
+ "C12": ("pv-crypto", "exploration", "model-based proptest over complete key evolutions of all 14 KES types; own Merkle seed-tree reference",
+   "For all 14 sum/compact KES types random seeds are evolved through every period; the period counter, the unchanged public key (equal to an independently recomputed Merkle root), verification at the own period, rejection at every other in-range period and for another message, signature byte round-trips and the refusal of exactly the last update are checked - at every period for depth <= 4, at landmark + random periods for depth 5..7 in quick and every period in thorough.",
+   "Seeds and messages are sampled; periods are exhaustive for depth <= 4 (all depths in thorough)."),
+ "C13": ("pv-crypto", "exploration", "model-based scan of the key buffer along complete evolution histories against a reference seed tree",
+   "For ~19 k random seeds per quick run and every depth 1..7 of both constructions the complete evolution history is executed; after keygen, after every update and after the refused last update every 32-byte window of the key buffer (all byte offsets) is compared with the seeds and expanded Ed25519 secrets of all reference-tree nodes covering a past period; signing must not modify the buffer and the caller's seed must be zeroised. The reference tree is tied to the implementation by public-key equality and by finding the current leaf secret at offset 0.",
+   "Observes as_bytes() only - stack temporaries and compiler-elided zeroisation are out of reach; seeds sampled, histories complete."),
+ "C14": ("pv-crypto", "exploration", "bounded-exhaustive enumeration (all length-1 pairs, all length-2 difference pairs / all 2^32 pairs in thorough) + proptest for longer strings",
+   "memeq/memcmp must equal slice equality / lexicographic order for all 2^16 length-1 pairs, all 511^2 length-2 difference pairs (every accumulator x difference state of the branchless step; all 2^32 pairs in thorough) and 6 M random pairs of length 3..64 with a uniformly placed deciding byte and equal/random/opposing tails, both argument orders.",
+   "Exhaustive for lengths 1-2, sampled beyond; the statement's 'proved for all 8-bit differences' clause is discharged by enumeration, not proof; timing behaviour is not examined."),
+ "C15": ("pv-math", "exploration", "differential proptest against a num-bigint port of the Cardano non-integral reference + a 400-bit truth oracle with analytic tolerances",
+   "On ~61 k generated and enumerated arguments per quick run (1.5 M thorough) - exp over +-[1e-30,1e6], ln over (1e-30,1e6] including the reference's own e^k +- ulps, pow over positive/negative bases and +- exponents, and the leader-check range (1-f)^sigma - exp, ln and pow must return exactly the digits of an independent num-bigint port of the reference algorithm (through == and through the printed string) and lie within an analytic error bound of a 400-bit true value.",
+   "Sampled; the port was written from the algorithm description because the golden vectors are absent in this sandbox, so a shared misreading would only be caught by the truth-within-tolerance oracle."),
+ "C16": ("pv-math", "exploration", "proptest with a reference port of taylorExpCmp and a 400-bit e^x as ground truth",
+   "For 150 k cases per quick run with x >= 0, a bound exceeding e^x by construction, compare values from 1e-30 relative distance and exact +-ulp neighbours of e^x up to 2x, and max_n in 1..1000, exp_cmp must return the same estimate, iteration count and approximation as the port of the reference, including along the leader-check flow at the threshold +- ulps; against the true e^x no LT may be wrong and no GT may be wrong by more than the recorded last-ulp window.",
+   "A GT that is wrong by < 1 ulp (1e-34) exists for x in [1.4e-12, 8.4e-12]; it is inherent in the reference algorithm that pallas must reproduce (known finding); larger errors carry a different signature."),
+ "C17": ("pv-math", "exploration", "proptest against exact integer arithmetic in num-bigint; own printer/parser",
+   "For ~410 k cases per quick run over random 0-72-digit values, integers, half-way points and their ulp neighbours, both signs: + - x / at precision 34 in all four operator forms equal the exact sum/difference, floored product and truncated quotient; floor/ceil/trunc/round are the prescribed integers; comparisons agree with the integers; the printed form reads back to the stored value with exactly `precision` fractional digits, at precisions {0,1,3,10,34,50}.",
+   "Operators at precisions other than 34 and Abs are not covered; comparisons only between equal precisions."),
+ "C18": ("pv-addr", "exploration", "by-construction proptest + (type x network) grid; independent CIP-19 byte model, varint and bech32 encoders",
+   "Addresses of all ten Shelley/stake types on all sixteen network ids are built from generated hashes and pointers and compared with wire bytes produced by an independent CIP-19 model: header byte, payload, hex and bech32 text, HRP, and the parsed-back value through from_bytes, try_from, from_hex, from_bech32 and from_str. The (type x id) grid is covered cell by cell with boundary payloads; 1.5 M random addresses and as many varuint values around every 7-bit boundary are added.",
+   "Reference encoders self-tested against CIP-19 / BIP-173 vectors at start-up."),
+ "C19": ("pv-addr", "exploration", "proptest + bounded-exhaustive single-bit fault injection per generated address; independent CRC-32, CBOR reader and base58 encoder",
+   "Byron addresses of every type and attribute set are built through AddressPayload::new / from_decoded, checked against an independent CBOR model and CRC-32 and parsed back through all seven entry points (bytes, base58, hex, FromStr). For ~5 k addresses per quick run and three published mainnet vectors every single-bit flip is applied: flips in payload or checksum bytes must be rejected by every entry point, any other result must still carry a matching checksum; forged frames with wrong checksums, damaged payloads and over-wide checksum integers are added.",
+   "Sampled over address contents; exhaustive over single-bit flips of each sampled address. Addresses longer than 132 bytes do not survive base58 (dependency limit, known finding)."),
+ "C21": ("pv-msg", "exploration", "proptest over message sequences x segmentations (all single cuts for short streams, all 1-byte segments, random cut sets) on in-memory bearers of both stacks",
+   "Sequences of 1..12 messages of every core protocol are concatenated and cut at every single position (streams <= 64 bytes and all ordered pairs of variants), into 1-byte segments, at random cut sets and at forced 65535-byte chunks. net1: two Plexers over UnixStream::pair, raw enqueue_chunk per segment, recv_full_msg per message plus a sentinel; net2: write_segment / read_full_msgs with a persistent partial-chunk map and AnyMessage::from_payload fed incrementally. Oracle: same messages, same order, no error, no left-over bytes.",
+   "Timeouts make a run inconclusive, never a violation. Messages that do not round-trip in isolation are excluded (they belong to C22)."),
+ "C22": ("pv-msg", "exploration", "proptest generators for 144 message variants of both stacks; strict independent CBOR reader + decode/re-encode equality",
+   "Every variant of every message type in both stacks (handshake n2n/n2c, chainsync, blockfetch, txsubmission, keepalive, peersharing, localstate queries/results, localtxsubmission with the Conway rejection tree, DMQ, txmonitor, Leios notify/fetch) is generated with representable field combinations; the encoding must be exactly one well-formed CBOR item for the independent cborx reader (declared lengths match contents), decode with every byte consumed to an equal message and re-encode identically.",
+   "Only 12 of the local-state result types are generated; the large governance-state results are not."),
+ "C40": ("pv-txb", "exploration", "stateful proptest: staging-op sequences against an independent model; built bytes read back with cborx + Blake2b + minicbor",
+   "Random sequences of up to 28 staging operations (inputs with duplicates and removals, outputs with assets/datums/script references, cancelling mints, spend/mint redeemers, witness scripts and datums, auxiliary data, bounds, network id, signers) are applied to StagingTransaction and to an independent model; after build_conway_raw the bytes are read back with an independent CBOR reader and compared field by field, the id is recomputed with an independent Blake2b-256 over the body span, redeemer indices are recomputed over the sorted de-duplicated input set and the sorted minted policies, and the bytes must decode as conway::Tx. Panics are violations.",
+   "Redeemers without ex-units (todo!()), certificate/withdrawal fields, script_data_hash and integer overflow while staging are outside what is checked."),
+ "C41": ("pv-txb", "exploration", "stateful proptest against a map model; ed25519-dalek as signature oracle",
+   "On transactions built from random staging sequences, random sequences of up to 12 sign / add_signature / remove_signature over four keys are executed; after every step the body span and id must be unchanged, the signature map must hold exactly the keys the operations leave, and the witness set read with an independent CBOR reader must contain exactly one witness per map key, each verified with ed25519-dalek against the id.",
+   "Pool of four keys, Conway-built transactions only."),
 }
 
 NOT_YET = {}
